@@ -116,6 +116,20 @@ pub struct Rec {
     pub shown: Option<String>,
     /// every leaf value of the record's JSON (before and after the update), normalised
     pub leaves: BTreeSet<String>,
+    /// the record's message as JSON after `update_snapshot` on a FRESH table (no history)
+    pub solo: String,
+}
+
+/// C07 mode of this module (see `run_c07`): histories are judged by "the record that is written does not depend on
+/// what was received before" instead of by the table
+pub static C07_MODE: std::sync::atomic::AtomicBool = std::sync::atomic::AtomicBool::new(false);
+
+pub fn solo_of(msg: &Message, ts: f64) -> String {
+    let mut tm = TimedMessage { timestamp: ts, frame: vec![], message: Some(msg.clone()), metadata: vec![], decode_time: None, ..Default::default() };
+    let app = tokio::sync::Mutex::new(Jet1090::default());
+    let db = BTreeMap::new();
+    futures::executor::block_on(update_snapshot(&app, &mut tm, &db));
+    serde_json::to_string(&tm.message).unwrap_or_else(|e| format!("serialisation failed: {e}"))
 }
 
 fn norm(v: &Value) -> Option<String> {
@@ -197,7 +211,8 @@ pub fn pool_for(addrs: [u32; 3], kinds: Vec<&'static str>, depth: usize, equal_s
                     let db = BTreeMap::new();
                     futures::executor::block_on(update_snapshot(&app, &mut tm, &db));
                     leaves(&serde_json::to_value(&tm).unwrap_or(Value::Null), &mut lv);
-                    Rec { msg, ts, shown, leaves: lv }
+                    let solo = serde_json::to_string(&tm.message).unwrap_or_else(|e| format!("serialisation failed: {e}"));
+                    Rec { msg, ts, shown, leaves: lv, solo }
                 }));
             }
             per_kind.push(per_pos);
@@ -232,7 +247,7 @@ pub fn check_periodic(p: &Pool, pattern: &[(usize, usize)], times: usize, rep: &
             rep.violation("harness:record", "a reference record is not accepted by the decoder".into(), json!({}));
             return 0;
         };
-        owned.push(Rec { msg: r.msg.clone(), ts: 1000.25 + 3.0 * i as f64, shown: r.shown.clone(), leaves: r.leaves.clone() });
+        owned.push(Rec { msg: r.msg.clone(), ts: 1000.25 + 3.0 * i as f64, shown: r.shown.clone(), leaves: r.leaves.clone(), solo: r.solo.clone() });
     }
     let wit = json!({"periodic": true, "times": times, "kinds": if p.kinds.len() == kinds().len() { "all" } else { "core" }, "pattern": pattern.iter().map(|(a, k)| json!([format!("{:06x}", p.addrs[*a]), p.kinds[*k]])).collect::<Vec<_>>()});
     judge_recs(&owned.iter().collect::<Vec<_>>(), &wit, rep)
@@ -250,7 +265,7 @@ pub fn check_gaps(p: &Pool, hist: &[(usize, usize)], gaps: &[f64], rep: &Report)
             return 0;
         };
         ts += gaps[i];
-        owned.push(Rec { msg: r.msg.clone(), ts, shown: r.shown.clone(), leaves: r.leaves.clone() });
+        owned.push(Rec { msg: r.msg.clone(), ts, shown: r.shown.clone(), leaves: r.leaves.clone(), solo: r.solo.clone() });
     }
     let wit = json!({"gaps": gaps, "kinds": if p.kinds.len() == kinds().len() { "all" } else { "core" }, "history": hist.iter().map(|(a, k)| json!([format!("{:06x}", p.addrs[*a]), p.kinds[*k]])).collect::<Vec<_>>()});
     judge_recs(&owned.iter().collect::<Vec<_>>(), &wit, rep)
@@ -269,7 +284,8 @@ pub fn fleet_history(n: usize, kind: &str) -> Vec<Rec> {
             let v = serde_json::to_value(&tm).unwrap_or(Value::Null);
             let mut lv = BTreeSet::new();
             leaves(&v, &mut lv);
-            owned.push(Rec { msg, ts, shown: v.get("icao24").and_then(|x| x.as_str()).map(String::from), leaves: lv });
+            let solo = solo_of(&msg, ts);
+            owned.push(Rec { msg, ts, shown: v.get("icao24").and_then(|x| x.as_str()).map(String::from), leaves: lv, solo });
         }
     };
     for i in 0..n {
@@ -282,7 +298,44 @@ pub fn fleet_history(n: usize, kind: &str) -> Vec<Rec> {
     owned
 }
 
+/// C07: "a timed record keeps the input frame, so decoding that frame again gives the same fields" - the record
+/// handed on by the decoder loop (update_snapshot may edit it) must be the one a fresh process would write for the
+/// same reception, whatever was received before.
+fn judge_records_c07(recs: &[&Rec], witness: &Value, rep: &Report) -> usize {
+    let res = guarded(|| {
+        let app = tokio::sync::Mutex::new(Jet1090::default());
+        let db = BTreeMap::new();
+        let mut diffs = vec![];
+        for (i, r) in recs.iter().enumerate() {
+            let mut m = timed(r, 7);
+            futures::executor::block_on(update_snapshot(&app, &mut m, &db));
+            let now = serde_json::to_string(&m.message).unwrap_or_else(|e| format!("serialisation failed: {e}"));
+            if now != r.solo {
+                diffs.push((i, now, r.solo.clone()));
+            }
+        }
+        diffs
+    });
+    let mut w = witness.clone();
+    if let Some(o) = w.as_object_mut() {
+        o.insert("engine".into(), json!("jetdrv"));
+    }
+    match res {
+        Err(e) => rep.violation(&format!("table:panic:{}", panic_class(&e)), format!("update_snapshot panicked: {e}"), w),
+        Ok(diffs) => {
+            if let Some((i, now, solo)) = diffs.first() {
+                let kind = serde_json::from_str::<Value>(solo).ok().and_then(|v| v.get("df").map(|d| d.to_string())).unwrap_or_default().replace('"', "");
+                rep.violation(&format!("record-depends-on-history:DF{kind}"), format!("record {i} of the history is handed on as {} but the same reception alone is handed on as {}", &now[..now.len().min(300)], &solo[..solo.len().min(300)]), w);
+            }
+        }
+    }
+    recs.len()
+}
+
 fn judge_recs(recs: &[&Rec], witness: &Value, rep: &Report) -> usize {
+    if C07_MODE.load(Ordering::Relaxed) {
+        return judge_records_c07(recs, witness, rep);
+    }
     let table = match run_table(recs) {
         Ok(t) => t,
         Err(e) => {
@@ -405,6 +458,50 @@ fn explore(p: &Pool, len: usize, equal: bool, ctx: &Ctx, rep: &Report, oc: &std:
         }
     });
     (total.load(Ordering::Relaxed), multi.load(Ordering::Relaxed))
+}
+
+/// C07 through the table code: every history of the C12 bound, judged by `judge_records_c07`
+pub fn run_c07(ctx: &Ctx, rep: &Report) {
+    C07_MODE.store(true, Ordering::Relaxed);
+    rep.set_rule("all record histories up to a depth over (aircraft x message kind) through the real update_snapshot; after every update the record that would be written is compared with the record a fresh table hands on for the same reception");
+    let d_all = if ctx.thorough() { 4 } else { 3 };
+    let oc = std::sync::Mutex::new([0u64; 5]);
+    let all = pool(kinds(), d_all, false);
+    let mut total = 0;
+    for len in 1..=d_all {
+        total += explore(&all, len, false, ctx, rep, &oc).0;
+    }
+    rep.part("jet1090 update_snapshot: records handed on do not depend on the history (all kinds)", total, json!({"kinds": all.kinds.len(), "aircraft": ADDRS.len(), "depth": d_all}));
+    let edge = pool_for(ADDRS_EDGE, kinds(), d_all - 1, false);
+    let mut te = 0;
+    for len in 1..d_all {
+        te += explore(&edge, len, false, ctx, rep, &oc).0;
+    }
+    rep.part("jet1090 update_snapshot: the same with boundary addresses", te, json!({"depth": d_all - 1}));
+    let core = pool(core_kinds(), 10, false);
+    let n = core.kinds.len();
+    let mut tp = 0;
+    for k0 in 0..n {
+        for k1 in 0..n {
+            for times in [6usize, 40] {
+                check_periodic(&core, &[(0, k0), (0, k1)], times, rep);
+                check_periodic(&core, &[(0, k0), (1, k1)], times, rep);
+                tp += 2;
+            }
+        }
+    }
+    rep.part("jet1090 update_snapshot: periodic long histories", tp, json!({"pattern_len": 2, "times": [6, 40]}));
+    total += te + tp;
+    rep.eval(total);
+    rep.trans(total);
+    rep.state(total);
+    rep.outcome("histories", total);
+    rep.set_bound(&format!("update_snapshot histories: depth {d_all} over {} kinds x 3 aircraft, boundary addresses to depth {}, periodic pairs x 6 / 40", all.kinds.len(), d_all - 1));
+}
+
+pub fn replay_c07(w: &Value, rep: &Report) {
+    C07_MODE.store(true, Ordering::Relaxed);
+    replay(w, rep)
 }
 
 pub fn run(ctx: &Ctx, rep: &Report) {
